@@ -60,10 +60,22 @@ var uintBoundaries = []uint64{
 	1<<63 - 1, 1 << 63, 1<<63 + 1, math.MaxUint64 - 1, math.MaxUint64,
 }
 
+// bytes that are markers in UBJSON (and the CBOR break)
+var markerBytes = []byte{'N', 'Z', 'T', 'F', 'i', 'U', 'I', 'l', 'L', 'd', 'D', 'H', 'C', 'S', '[', ']', '{', '}', '#', '$', 0xff}
+
 // Uint64In draws from [0,max] with a bias to width boundaries.
 func Uint64In(t *rapid.T, max uint64, label string) uint64 {
-	w := rapid.IntRange(0, 9).Draw(t, label+"_w")
+	w := rapid.IntRange(0, 10).Draw(t, label+"_w")
 	switch {
+	case w == 10:
+		// a number whose leading payload byte (at some width) equals a marker of
+		// the binary formats: raw payload must never be looked at as a marker
+		m := uint64(rapid.SampledFrom(markerBytes).Draw(t, label+"_m"))
+		v := m<<(8*uint(rapid.IntRange(0, 7).Draw(t, label+"_ms"))) | uint64(rapid.IntRange(0, 255).Draw(t, label+"_ml"))
+		for v > max {
+			v >>= 8
+		}
+		return v
 	case w < 3:
 		return rapid.Uint64Range(0, min64(max, 300)).Draw(t, label)
 	case w < 8:
@@ -160,8 +172,11 @@ func decimalFloat(t *rapid.T, label string) float64 {
 func Float64Bits(t *rapid.T, finiteOnly bool, label string) uint64 {
 	for {
 		var b uint64
-		w := rapid.IntRange(0, 11).Draw(t, label+"_w")
+		w := rapid.IntRange(0, 12).Draw(t, label+"_w")
 		switch {
+		case w == 12:
+			// leading payload byte equals a marker of the binary formats
+			b = uint64(rapid.SampledFrom(markerBytes).Draw(t, label+"_m"))<<56 | rapid.Uint64Range(0, 1<<56-1).Draw(t, label+"_ml")
 		case w < 2:
 			b = math.Float64bits(float64(Int64In(t, math.MinInt64, math.MaxInt64, label+"_i")))
 		case w < 4:
@@ -195,8 +210,11 @@ var f32Specials = []uint32{
 // Float32Bits draws float32 bit patterns.
 func Float32Bits(t *rapid.T, finiteOnly bool, label string) uint32 {
 	var b uint32
-	w := rapid.IntRange(0, 11).Draw(t, label+"_w")
+	w := rapid.IntRange(0, 12).Draw(t, label+"_w")
 	switch {
+	case w == 12:
+		// leading payload byte equals a marker of the binary formats
+		b = uint32(rapid.SampledFrom(markerBytes).Draw(t, label+"_m"))<<24 | uint32(rapid.IntRange(0, 1<<24-1).Draw(t, label+"_ml"))
 	case w < 2:
 		b = math.Float32bits(float32(rapid.Int32().Draw(t, label+"_i")))
 	case w < 4:
